@@ -9,20 +9,21 @@ CONFIG = {
         "case_type": "case", "ops_path": None, "mismatch_is_violation": False,
         "n_quick": 900, "n_thorough": 12000, "shard": 150,
     }],
-    "rule": "scripted battles on the REAL simulation.Simulation: 1-4 registered harness characters (4 kinds: speeds, SP "
-            "costs, target types), 1-5 harness enemies (HP 50-400, speeds incl. ties), 5-14 content scripts of engine calls "
+    "rule": "scripted battles on the REAL simulation.Simulation: 1-4 registered harness characters (6 kinds: speeds, SP "
+            "costs, target types, a Skill.CanUse / Ult.CanUse check of their own), 1-5 harness enemies (HP 50-400, speeds incl. ties), 5-14 content scripts of engine calls "
             "(attacks qualified/unqualified with lethal and scratch damage on any unit incl. dead and unknown ids, SetHP, "
             "insert abilities with real priorities and abort flags, extra actions, energy, SP, flag modifiers, gauge "
             "changes, revive switches, samples of Characters()/Enemies()/turn order), per-unit action queues, listener "
-            "slots (BattleStart, ActionEnd, HitEnd, TargetDeath, LimboWaitHeal verdict), decision sequences of the "
+            "slots (BattleStart, ActionEnd, HitEnd, TargetDeath, HPChange, AttackStart, the OnPhase1 / OnPhase2 modifier "
+            "ticks, LimboWaitHeal verdict), decision sequences of the "
             "script callbacks incl. invalid targets and ult requests, cycle limit 0-4, insert budget 0-12; distinct = "
             "distinct input term",
     "trusted": ["hits of harness content are 'plain' (no DEF/RES/stance/shield/crit), so a hit's total is its flat damage; the "
                 "damage formula itself is C04",
                 "listener scripts never open or close an attack bracket (legal use of the API, enforced by the model as a "
-                "distinct outcome and respected by the generator)",
+                "distinct outcome and respected by the generator); they may add hits to an attack that is open",
                 "the turn manager part is Model/Turn.v at binary64 (property C02)"],
-    "assumptions": ["content uses the engine API legally: qualified attacks and EndAttack only from action / ult / insert bodies"],
+    "assumptions": ["content uses the engine API legally: an attack bracket is opened (first qualified attack) and closed (EndAttack) only from action / ult / insert bodies"],
     "manifest": {
         "level_text": "Kernel-checked theorems about the model, for all configs, scripts and decision sequences. Run level: the trace of every run that ends (result or error return) is accepted by the decision monitor `decision_ok` that is evaluated on every real trace: after the script's answer the content call of that character is a skill exactly when a skill was decided and the engine did not fall back, the fallback to the default attack only follows a decided skill of the same character, and the primary target of an action or ultimate belongs to the class the ability's target type asks for and has not been announced dead (invariants: unit records keep the static fields of their description, the living lists hold only units of their side that were not announced; found on the way: a named target must still be on the field, model repaired to match the code). Per function: the action started for an alive character is the decided type or the default attack when the skill's cost is not available, a skill needs its cost, the primary target is what the decided rule selects (First = head of the living candidates of the right side; LowestHP / LowestHPRatio = the FIRST candidate with the smallest key: every candidate before it has a strictly larger key, none after it a smaller one, given non-NaN HP values; a named unit only if alive, on the field and of the right class), skill points stay in [0,5], an ultimate is queued only for a character the script asked for whose energy is full and queuing zeroes the energy. Not stated at run level: the skill-point and ultimate clauses (they are not part of the trace monitor).",
         "level_note": "Coq kernel; hand-written model Model/Sim.v tied by whole-trace correspondence; content is scripted harness "
